@@ -554,6 +554,15 @@ def run_threads(spec, rec: Recorder):
 def run_shard(spec, rec: Recorder):
     if not common.calibrate(rec, "crypto", "gkdi", "sd", "cms", "rpc", "epm"):
         return
+    try:
+        steerable = common.clock_steerable()
+    except Exception as e:  # a protect that fails offline is C01's finding; here it only means 'now' cannot be placed
+        steerable = False
+        rec.count("clock_probe_failed")
+    if not steerable:
+        rec.inconclusive_because("the code under test does not read a clock the harness can script: 'now' cannot be placed relative to the cached positions")
+        return
+    rec.count("clock_steerable_probe_ok")
     {"histories": run_histories, "random": run_random, "adjacent": run_adjacent, "async_orders": run_async_orders, "threads": run_threads}[spec["kind"]](spec, rec)
 
 
